@@ -23,6 +23,7 @@ import (
 	clienttypes "github.com/bianjieai/tibc-go/modules/tibc/core/02-client/types"
 	packettypes "github.com/bianjieai/tibc-go/modules/tibc/core/04-packet/types"
 	routingtypes "github.com/bianjieai/tibc-go/modules/tibc/core/26-routing/types"
+	ethtypes "github.com/bianjieai/tibc-go/modules/tibc/light-clients/09-eth/types"
 	"github.com/bianjieai/tibc-go/simapp"
 
 	"verif/mon"
@@ -327,7 +328,9 @@ func TestC16(t *testing.T) {
 	rec := mon.New("C16", "exploration",
 		"a 3-chain network runs the adversarial packet workload (all ports, relayed and direct routes, cleans, vouchers, rules, relayers; client updates steered onto heights whose big-endian encoding contains the byte 0x2F); the middle chain X is then exported with the module manager's genesis export and a fresh SimApp X' is initialised from it; "+
 			"twin oracle: all 17 TIBC gRPC queries over every key of X's raw dump are answered by X and X'; then the same follow-up messages run in lock-step on both (replays of every relayed message of the history, pending honest relays incl. ones proven at old heights, client updates that trigger pruning, cleans, voucher send-backs, governance) comparing result and KV effect. distinct = distinct (query or message kind, state class, outcome on X, outcome on X') tuples")
-	rec.Require("queries-compared", "followup-messages", "twins-built")
+	rec.Require("queries-compared", "followup-messages", "twins-built", "bsc-eth-followups")
+	ethtypes.VerifSkipSeal = true // synthetic ETH headers: only the ethash computation is skipped (hook H2)
+	defer func() { ethtypes.VerifSkipSeal = false }()
 	rawTotals := map[string]int{}
 	var rawMu sync.Mutex
 	histories(rec, mon.Scale(16, 400), func(i int, rng *rand.Rand) (*world.World, func()) {
@@ -359,7 +362,39 @@ func TestC16(t *testing.T) {
 					}
 				}
 			}
-			c16Twin(w, rng, rec, X, rawTotals, &rawMu)
+			// clients of the other two types on X: a BSC client fed 14 synthetic headers (recent signers, pending
+			// validators, a rotation) and an ETH client with a small header tree incl. a fork switch
+			bf, err := newBscFeed(X, rng, mon.Seed()*17+int64(i), "bsc-synthetic")
+			if err != nil {
+				rec.Inconclusive(err.Error())
+				return
+			}
+			for b := 0; b < 14; b++ {
+				h, signer := bf.next(rng)
+				if h == nil {
+					break
+				}
+				if r := bf.deliver(X, h); r.OK() {
+					bf.p.Apply(h, signer)
+				}
+			}
+			ef, err := newEthFeed(X, rng, "eth-synthetic")
+			if err != nil {
+				rec.Inconclusive(err.Error())
+				return
+			}
+			for e := 0; e < 6; e++ {
+				parent := ef.tree.Latest
+				if e == 3 {
+					parent = ef.nodes[1] // fork below the tip
+				}
+				h := synthChild(rng, parent)
+				if r := ef.deliver(X, h); r.OK() {
+					ef.tree.Add(h)
+					ef.nodes = append(ef.nodes, h)
+				}
+			}
+			c16Twin(w, rng, rec, X, rawTotals, &rawMu, bf, ef)
 		}
 	})
 	rec.Extra("raw_kv_differences_by_class_total", rawTotals)
@@ -372,7 +407,7 @@ func must16(err error) {
 	}
 }
 
-func c16Twin(w *world.World, rng *rand.Rand, rec *mon.Recorder, X *vnet.Chain, rawTotals map[string]int, rawMu *sync.Mutex) {
+func c16Twin(w *world.World, rng *rand.Rand, rec *mon.Recorder, X *vnet.Chain, rawTotals map[string]int, rawMu *sync.Mutex, bf *bscFeed, ef *ethFeed) {
 	net := w.Net
 	// recorded relayed messages that were delivered to X during the history (for replay)
 	type old struct {
@@ -419,6 +454,31 @@ func c16Twin(w *world.World, rng *rand.Rand, rec *mon.Recorder, X *vnet.Chain, r
 		}
 	}
 	pending("recv")
+	// 1b. the BSC and ETH clients keep following their chains identically
+	for b := 0; b < 4 && (tw.diff <= 6 && !tw.diverged); b++ {
+		h, signer := bf.next(rng)
+		if h == nil {
+			break
+		}
+		rx, ry := tw.both(func(c *vnet.Chain) *vnet.Result { return bf.deliver(c, h) })
+		if tw.cmpMsg("update-bsc-client", "client-other", rx, ry, nil) && rx.OK() {
+			bf.p.Apply(h, signer)
+		}
+		rec.Count("bsc-eth-followups", 1)
+	}
+	for e := 0; e < 4 && (tw.diff <= 6 && !tw.diverged); e++ {
+		parent := ef.tree.Latest
+		if e == 2 {
+			parent = ef.nodes[len(ef.nodes)/2] // a fork switch after the import
+		}
+		h := synthChild(rng, parent)
+		rx, ry := tw.both(func(c *vnet.Chain) *vnet.Result { return ef.deliver(c, h) })
+		if tw.cmpMsg("update-eth-client", "client-other", rx, ry, nil) && rx.OK() {
+			ef.tree.Add(h)
+			ef.nodes = append(ef.nodes, h)
+		}
+		rec.Count("bsc-eth-followups", 1)
+	}
 	// 5. governance
 	{
 		rx, ry := tw.both(func(c *vnet.Chain) *vnet.Result {
